@@ -164,7 +164,9 @@ def check_add_measures(ctx, part, before, w):
                               f"added measure [{s},{e}) lasts {bar_beats(model, s, e)} beats under {b}/{bt}", w)
                 return
             ctx.ambiguous()
-            if bar_beats(model, s, e) != b:
+            # the offset of the rounded start is carried along: the end of this bar is a rounded barline too
+            # (unless something fixed cuts the bar there)
+            if not (e in ts_starts or e in old_starts or e == last):
                 inexact.add(e)
             continue
         (b, bt, _), amb = sigmaps.ts_at(d, s)
@@ -372,7 +374,7 @@ def setup(ctx):
 # ---------------------------------------------------------------- workload
 def plan(tier, seed):
     n = 16 * 40 if tier == "quick" else 16 * 500
-    items = [["raw", i] for i in range(n)] + [["gen", i] for i in range(n // 2)]
+    items = [["raw", i] for i in range(n)] + [["gen", i] for i in range(n // 2)] + [["rests", i] for i in range(n // 4)]
     if tier == "quick":
         items += [["table", lo, lo + 30, 0.02] for lo in range(1, 961, 30)]
     else:
@@ -482,6 +484,36 @@ def run_item(ctx, item):
                  sample={"divisions": meta["q"], "existing_measures": meta["existing"], "bars": meta["bars"], "notes_before": n_before,
                          "notes_after": n_after, "calls": seq})
         ctx.state(f"{meta['existing'] > 0}:{gaps}:{n_after - n_before > 2}:{seq[0]}:{len(seq)}:{meta['q_changes'] > 0}")
+    elif kind == "rests":
+        # fill_rests on voices that enter late and stop early, on a grid that mixes sixteenths and triplets: the silences
+        # need one, two or three notated values
+        rng = ctx.rng("rests", item[1])
+        q = rng.choice([12, 12, 24, 6, 4, 48])
+        b, bt = rng.choice([(4, 4), (3, 4), (5, 4), (6, 8), (2, 2)])
+        bar = 4 * q * b // bt
+        part = S.Part("P1", quarter_duration=q)
+        part.add(S.TimeSignature(b, bt), 0)
+        n_m = rng.randint(1, 4)
+        unit = max(1, q // 12) if q % 12 == 0 else max(1, q // 4)
+        k = 0
+        for m in range(n_m):
+            part.add(S.Measure(number=m + 1), m * bar, (m + 1) * bar)
+            for v in range(1, rng.choice([1, 1, 2]) + 1):
+                grid = sorted({x for x in range(0, bar + 1, unit) if x % (q // 4 or 1) == 0 or (q % 3 == 0 and x % (q // 3) == 0)
+                               or x % max(1, q // 6 if q % 6 == 0 else q) == 0})
+                a_ = rng.choice([x for x in grid if x < bar])
+                e_ = rng.choice([x for x in grid if x > a_])
+                part.add(S.Note("CDEFGAB"[k % 7], 4, None, id=f"n{k}", voice=v, staff=1), m * bar + a_, m * bar + e_)
+                k += 1
+        mode = rng.random() < 0.7
+        ok, _ = ctx.try_call(S.fill_rests, part, measurewise=mode)
+        if ok:
+            ctx.check()
+            zero = [r for r in timemaps.objects_of(part, S.Rest) if r.end is None or r.end.t <= r.start.t]
+            if zero:
+                ctx.violation("fill_rests-added-a-rest-without-length", f"rest at {zero[0].start.t} has no length (divisions {q}, {b}/{bt})",
+                              {"divisions": q, "ts": [b, bt], "notes": [[n.id, n.start.t, n.end.t, n.voice] for n in timemaps.objects_of(part, S.Note)]})
+        ctx.case(["rests", item[1]], True, cls="fill_rests-late-and-early-voices" + (":measurewise" if mode else ":global"))
     elif kind == "gen":
         rng = ctx.rng("gen", item[1])
         part, meta = gen_score.make_part(rng, "P1", profile="full")
